@@ -214,9 +214,16 @@ func (m *Machine) fmtIntrinsic0(s *State, f *Frame, x *ssa.Call, name string, ar
 		}
 		f.env[x] = m.mkStr(fmt.Sprint(goArgs...))
 		return true
-	case "fmt.Sscanf":
-		format, ok := m.toGo(s, args[1], types.Typ[types.String])
-		va := m.variadic(s, args[2])
+	case "fmt.Sscanf", "fmt.Sscan":
+		var format any = "%d"
+		ok := true
+		var va []IfaceV
+		if name == "fmt.Sscan" {
+			va = m.variadic(s, args[1]) // Sscan(str, &int): one integer destination, same as "%d"
+		} else {
+			format, ok = m.toGo(s, args[1], types.Typ[types.String])
+			va = m.variadic(s, args[2])
+		}
 		if !ok || len(va) != 1 {
 			s.fail("unsupported", "Sscanf format")
 			return true
